@@ -222,7 +222,7 @@ async function execC16(mods, SPC, run) {
     }
   }
   // clause 4: every $ref resolves in the final export
-  const valid = new Set(Object.keys(D).map((k) => cfg.refPathTemplate.replace("{name}", k)));
+  const valid = new Set(Object.keys(D).map((k) => cfg.refPathTemplate.replace("{name}", () => k)));
   const refs = [];
   for (const s of returned) collectRefs(s, refs);
   for (const k of Object.keys(D)) collectRefs(D[k], refs);
